@@ -56,7 +56,14 @@ def applySignals (sv : Server) : Server :=
       | some ids => ids.foldl (fun sv id =>
           let c := sv.conn id
           sv.setConn id { c with watch := AList.set c.watch key true }) sv) sv
-  { sv with store := { sv.store with signalled := [] } }
+  -- `Nodis.Clear()`: every watched key of every registered connection counts as changed
+  let sv := if sv.store.flushed then
+      sv.registry.foldl (fun (sv : Server) (key, ids) =>
+        ids.foldl (fun sv id =>
+          let c := sv.conn id
+          sv.setConn id { c with watch := AList.set c.watch key true }) sv) sv
+    else sv
+  { sv with store := { sv.store with signalled := [], flushed := false } }
 
 /-- run one closure against the store (panic ⇒ one more error token, as `recover` writes it) -/
 def runBody (sv : Server) (now : Int) (ch : Choice) (b : Body) : Server × List Tok :=
@@ -80,10 +87,21 @@ def multi (sv : Server) (id : String) : Server × List Tok :=
   if c.state % 2 = 1 then (sv, [Tok.err 0])
   else (sv.setConn id { c with state := c.state + 1 }, [Tok.simple (Bytes.ofString "OK")])
 
+/-- `unwatchAll(n, conn)`: the connection's flags are cleared and it leaves the registry for every
+    key it was watching -/
+def unwatchAll (sv : Server) (id : String) : Server :=
+  let c := sv.conn id
+  let sv := c.watch.foldl (fun (sv : Server) (key, _) =>
+    match AList.get? sv.registry key with
+    | none => sv
+    | some ids => { sv with registry := AList.set sv.registry key (ids.filter (· ≠ id)) }) sv
+  sv.setConn id { (sv.conn id) with watch := [] }
+
 /-- DISCARD -/
 def discard (sv : Server) (id : String) : Server × List Tok :=
+  let sv := unwatchAll sv id
   let c := sv.conn id
-  (sv.setConn id { c with state := 0, queue := [], watch := [] }, [Tok.simple (Bytes.ofString "OK")])
+  (sv.setConn id { c with state := 0, queue := [] }, [Tok.simple (Bytes.ofString "OK")])
 
 /-- WATCH key… -/
 def watch (sv : Server) (id : String) (keys : List Bytes) : Server × List Tok :=
@@ -99,16 +117,15 @@ def watch (sv : Server) (id : String) (keys : List Bytes) : Server × List Tok :
     | some ids => if ids.contains id then sv else { sv with registry := AList.set sv.registry key (id :: ids) }) sv
   (sv, [Tok.simple (Bytes.ofString "OK")])
 
-/-- UNWATCH goes through execCommand; `n.UnWatch(conn)` with no keys only clears the connection's
-    own flags — the registry keeps the connection -/
-def unwatchBody (id : String) : Server → Server := fun sv =>
-  let c := sv.conn id
-  sv.setConn id { c with watch := [] }
+/-- UNWATCH goes through execCommand; when it runs it ends every watch of the connection -/
+def unwatchBody (id : String) : Server → Server := fun sv => unwatchAll sv id
 
 /-- EXEC -/
 def exec (sv : Server) (id : String) (now : Int) : Server × List Tok :=
   let c := sv.conn id
-  let reset (sv : Server) : Server := sv.setConn id { (sv.conn id) with state := 0, queue := [], watch := [] }
+  let reset (sv : Server) : Server :=
+    let sv := unwatchAll sv id
+    sv.setConn id { (sv.conn id) with state := 0, queue := [] }
   if c.state % 2 ≠ 1 then (reset sv, [Tok.err 0]) else
   if (c.state / 4) % 2 = 1 then (reset sv, [Tok.err 2]) else
   if c.queue.isEmpty then (reset sv, [Tok.arr 0]) else
